@@ -9,7 +9,7 @@ EXPLANATION = ("Three gateways turn names from trees/indices into paths or persi
                "path::component(entry.filename, symlink-mode-if-link, options). (2) gix-worktree StackDelegate::push: create_leading_directory (the only caller of "
                "std::fs::create_dir in that module) is cut off unless validate_last_component returned Ok, which calls path::component and returns its error. "
                "(3) gix-index State::from_tree: both collector callbacks call path::component, every Err edge stores into invalid_path and does not continue, and from_tree "
-               "cannot construct a State on the Cancelled arm. Options come from the caller (parameter provenance). The set of code points is_dot_hfs skips equals git's HFS-ignorable table (predicate evaluated over all of Unicode by interval abstract interpretation). In the tree editor every iteration of the write loop passes the component validation (no path from the loop header to its back edge avoids it). That component() refuses exactly git's set of names is otherwise not decided.")
+               "cannot construct a State on the Cancelled arm. Options come from the caller (parameter provenance). The set of code points is_dot_hfs skips equals git's HFS-ignorable table (predicate evaluated over all of Unicode by interval abstract interpretation). In the tree editor every iteration of the write loop passes the component validation (no path from the loop header to its back edge avoids it). In gix-index add_entry no switch that decides whether the mode-aware validation runs derives from the collected path. That component() refuses exactly git's set of names is otherwise not decided.")
 
 
 def run(db, chk):
